@@ -71,7 +71,12 @@ def generate(rng, tier, shard, nshards):
             kind = "ctor" if (j == 0 and i % 2 == 0) else ("none" if (j > 0 and rng.random() < 0.3) else "explicit")
             if kind == "explicit" and j > 0 and rng.random() < 0.15:
                 kind = "omitted"        # the date argument left out altogether (not the same as date=None)
-            qs.append({"kind": kind, "lat": lat, "lon": lon, "h": h, "date": draw_date(rng, bool(rng.random() < 0.4))})
+            elif kind == "explicit" and j > 0 and rng.random() < 0.15:
+                kind = "own-date"       # the object's own `date` attribute (a datetime.date) handed back as the date of the next query
+            dd = draw_date(rng, bool(rng.random() < 0.4))
+            if rng.random() < 0.15:     # decimal years just below a tenth / an epoch boundary
+                dd = float(rng.choice([2019.999, 2024.999, 2017.549, 2022.348, 2021.048, 2026.951, 2019.949, 2015.051]))
+            qs.append({"kind": kind, "lat": lat, "lon": lon, "h": h, "date": dd})
             if j > 0 and i % 3 == 1 and rng.random() < 0.35:
                 # the object's public state methods called by hand between two queries (with a date of any epoch): the next dated query must not care
                 qs[-1]["pre"] = [str(rng.choice(["reset_date", "reset_coefficients", "load_coefficients"])), draw_date(rng, bool(rng.random() < 0.5))]
@@ -162,6 +167,20 @@ def check_history(case, ctx):
             if q["kind"] == "explicit":
                 out = call(lambda: w.magnetic_field(lat, lon, h, date=q["date"]))
                 cur_date = q["date"]
+            elif q["kind"] == "own-date":
+                own = w.date
+
+                def fresh_same_day():
+                    f = WMM(frame=frame)
+                    f.magnetic_field(lat, lon, h, date=own)
+                    return np.array([f.X, f.Y, f.Z], float), float(f.date_dec)
+                out = call(lambda: w.magnetic_field(lat, lon, h, date=own))
+                fr = call(fresh_same_day)
+                if out.ok and ctx.returned(fr, clause="no-exception[own date, fresh object]", route=route):
+                    cur_date = fr.value[1]
+                    ctx.le("a query dated with the object's own `date` attribute is answered as a fresh object answers for that calendar day",
+                           float(np.abs(np.array([w.X, w.Y, w.Z], float) - fr.value[0]).max()), 1e-9,
+                           {"query_index": j, "history": log[-6:], "date": str(own), "date_dec_here": float(w.date_dec), "date_dec_fresh": fr.value[1]}, route=route)
             elif q["kind"] == "omitted":
                 out = call(lambda: w.magnetic_field(lat, lon, h))
 
